@@ -273,14 +273,16 @@ PROPS["C25"] = dict(
 )
 PROPS["C10"] = dict(
     level="model_checking", jobs=2, heavy_jobs=2,
-    claim="(a)+(c) gate, entry state and polling discipline: the irq class of the K-step family - a pending vectored interrupt is taken iff its (clamped) priority exceeds PSR's, enters supervisor mode at mem[x100+vect] with old PSR/PC pushed on the supervisor stack, CC=z, priority set, exactly one poll before any memory access, lower-priority requests fall through to the fetch, external interrupts surface as SimErr::Interrupt. (b) arbitration: DeviceHandler::poll_interrupt over three devices with symbolic requests delivers a request of maximal priority and polls each device exactly once.",
-    note="(d) transparency of a register-preserving handler (entry ; RTI brackets to the identity) is a thorough-tier two-step harness. Timing 'only at an instruction boundary' follows from the single poll at the start of _step_inner (asserted through the device call log).",
+    claim="(a)+(c) gate, entry state and polling discipline: the irq class of the K-step family - a pending vectored interrupt is taken iff its (clamped) priority exceeds PSR's, enters supervisor mode at mem[x100+vect] with old PSR/PC pushed on the supervisor stack, CC=z, priority set, exactly one poll before any memory access, lower-priority requests fall through to the fetch, external interrupts surface as SimErr::Interrupt. (b) arbitration: DeviceHandler::poll_interrupt over three devices with symbolic requests delivers a request of maximal priority and polls each device exactly once. (d) transparency, as an inductive bracket over TWO real steps from an arbitrary state: interrupt entry followed by a handler whose instruction is RTI restores R0-R5, R7 (full words), the values of R6 and the saved SP, PC, the raw PSR and the frame depth, and changes memory only in the two supervisor stack slots - so a handler that preserves registers and the stack composes to the identity on the interrupted program at any boundary, nested or not.",
+    note="(d) assumes the supervisor stack slots lie outside the I/O page and do not overlap the vector-table entry (OS-owned stack); the handler body itself is the hypothesis (its first instruction is RTI), not executed code. Timing 'only at an instruction boundary' follows from the single poll at the start of _step_inner (asserted through the device call log).",
     design_ref="DESIGN.md section 3 (C10)",
-    bounds="one step (a,c); three devices, one poll (b); unwind 8/11",
+    bounds="one step (a,c); three devices, one poll (b); two steps (d); unwind 8/11",
     outside="handler bodies; nesting beyond one entry; keyboard/timer as interrupt sources (C33/C34 at device level)",
     assumptions=_K_ASSUME,
     harnesses=[
         H("c10_arbitration", stubbing=True, heavy=True, encodes=["<DeviceHandler as ExternalDevice>::poll_interrupt", "Interrupt::{vectored,external,priority}", "SimDevice::poll_interrupt"], bound="3 devices, any requests"),
+        H("c10_bracket", module="c10::bracket", stubbing=True, kani_args=_K_ARGS, encodes=_K_ENC, heavy=True, timeout=3000, cover_tags=[],
+          bound="two steps: interrupt entry from an arbitrary state, then RTI at the handler address; supervisor stack slots outside the I/O page and not overlapping the vector entry"),
         H("c10_irq_entry", module="c10::k", cover_tags=["step", "mem", "calls", "depth"], stubbing=True, kani_args=_K_ARGS, encodes=_K_ENC, heavy=True, timeout=1800, bound="one step with a pending interrupt, everything else symbolic"),
     ],
 )
